@@ -457,6 +457,7 @@ func (g *gen) op(kind string) Op {
 		}
 		op.Macros = g.macros(&op, op.Xattrs)
 		g.exp(&op)
+		op.Preserve = g.r.Chance(15) // (a deletion clears the expiry whatever this option says)
 	case "WriteResurrectionWithXattrs":
 		op.Body = strp(g.jsonBody())
 		if g.r.Chance(4) {
